@@ -9,7 +9,8 @@
     operation of [FlowSend.apply] — through the very interpreter that is compared with the
     implementation; operations that violate the calling discipline of [Connection] ([adm]) are
     skipped. *)
-From QV Require Import Lib.Tac Lib.Corr Model.FlowSend Proofs.FlowSendProofs gen.Constants.
+From QV Require Import Lib.Tac Lib.Corr Model.FlowSend Proofs.RangeSetProofs Proofs.FlowSendProofs
+  Proofs.FlowSendFull gen.Constants.
 Open Scope Z_scope.
 
 (** On every stream the offset written (an upper bound of the highest offset sent) never exceeds
@@ -97,19 +98,63 @@ Theorem C05_max_stream_count_constant : MAX_STREAM_COUNT_MODEL = MAX_STREAM_COUN
 Proof. vm_compute. reflexivity. Qed.
 Print Assumptions C05_max_stream_count_constant.
 
-(** FULL statement (NOT proved): the same invariant for the complete operation set admitted by
-    [adm] — [open], [finish], [reset], MAX_STREAM_DATA, MAX_STREAMS, STOP_SENDING, transmission,
-    acknowledgement / loss of sent frames, [reset_acked], [poll], 0-RTT acceptance
-    ([set_params p1 >= p0]) — together with absence of every panic ([apply] never [None]), and
-    [unacked_data = sum of the per-stream unacknowledged bytes].  Proved so far: the machine
-    restricted to write / MAX_DATA / set_send_window / accept / observe ([adm_core]); lemmas for
-    the map surgery of the other operations ([inv_set_entry], [touch_inv], [sc_inv]) are in
-    Proofs/FlowSendProofs.v.  The full operation set is covered by the correspondence oracle
-    (credit ledger) only. *)
+(** [unacked_data] is exactly the sum, over the streams that were not reset, of the bytes written
+    and not yet acknowledged ([usum]: buffered length minus acknowledged-out-of-order ranges) —
+    no drift — in every reachable state of the full model (all operations, including
+    transmission, acknowledgement, loss, reset, Retry and 0-RTT rejection). *)
+Theorem C05_unacked_is_sum : forall sd mrb sw p0 i s g,
+  0 <= sd <= 1 -> params_valid p0 = true ->
+  grun i (start sd mrb sw p0) = (s, g) ->
+  s.(unacked_data) = usum s.(send) /\ 0 <= s.(unacked_data).
+Proof.
+  intros sd mrb sw p0 i s g Hs Hv R.
+  pose proof (reachable_full sd mrb sw p0 i s g Hs Hv R) as F.
+  split; [exact (h_usum _ _ _ (f_hinv _ _ F))|exact (i_unacked _ _ (f_inv _ _ F))].
+Qed.
+Print Assumptions C05_unacked_is_sum.
+
+(** Per stream, in every reachable state: the acknowledged ranges, the ranges queued for
+    retransmission and the frames in flight are pairwise disjoint pieces of [base, unsent) whose
+    lengths add up exactly ([BufOK]/[LiveOK] of Proofs/FlowSendFull.v); consequently the
+    acknowledgement of ANY frame that is in flight on a stream that was not reset succeeds
+    (no underflow in [SendBuffer::ack]) and removes at most that stream's unacknowledged bytes. *)
+Theorem C05_ack_never_underflows : forall sd mrb sw p0 i s g k id a b fin L' x,
+  0 <= sd <= 1 -> params_valid p0 = true ->
+  grun i (start sd mrb sw p0) = (s, g) ->
+  log_get k s.(log) = Some ((id, a, b, fin), L') ->
+  lookup id s.(send) = Some (Some x) -> x.(s_state) <> 3 ->
+  exists x1, sb_ack a b x = Some x1
+    /\ ucontrib (Some x1) = ucontrib (Some x) - (b - a) /\ 0 <= b - a <= ucontrib (Some x).
+Proof.
+  intros sd mrb sw p0 i s g k id a b fin L' x Hs Hv R G Lk Hst.
+  pose proof (reachable_full sd mrb sw p0 i s g Hs Hv R) as F.
+  pose proof (h_buf _ _ _ (f_hinv _ _ F) id x Lk) as Hb.
+  destruct (bufok_ack _ _ _ _ _ _ _ _ G Hb Hst) as (x1 & SA & _ & Hu & Hle & _).
+  destruct (log_get_spec _ _ _ _ G) as (Hl & _). destruct (b_frames _ _ _ Hb _ _ _ _ Hl).
+  exists x1. repeat split; auto; lia.
+Qed.
+Print Assumptions C05_ack_never_underflows.
+
+(** [send_streams] never falls below the number of streams the application holds. *)
+Theorem C05_send_streams_counts : forall sd mrb sw p0 i s g,
+  0 <= sd <= 1 -> params_valid p0 = true ->
+  grun i (start sd mrb sw p0) = (s, g) -> cnt s <= s.(send_streams).
+Proof.
+  intros sd mrb sw p0 i s g Hs Hv R.
+  exact (c_cnt _ _ (f_sinv _ _ (reachable_full sd mrb sw p0 i s g Hs Hv R))).
+Qed.
+Print Assumptions C05_send_streams_counts.
+
+(** FULL statement (NOT proved): absence of every panic — [apply op s <> None] for every
+    admissible operation in every reachable state.  The invariant [Full] (credit [Inv], buffers and
+    in-flight frames [HInv], [send_streams] accounting [SInv]) IS proved for every reachable state
+    of the full model ([reachable_full]) and implies each individual checked operation cannot fail
+    ([write_limit_some], [C05_ack_never_underflows], [reject_some], [sinv_remove] ...), but the
+    single theorem assembling them over all operations is not written. *)
 Definition C05_full : Prop := forall sd mrb sw p0 i s g,
   0 <= sd <= 1 -> 0 <= mrb -> params_valid p0 = true ->
   grun i (start sd mrb sw p0) = (s, g) ->
-  Inv s g /\ (forall op, adm g s op = true -> apply op s <> None).
+  Full s g /\ (forall op, adm g s op = true -> apply op s <> None).
 
 (** Non-vacuity: a reachable state with a stream at its limit, a blocked write, then credit. *)
 Example C05_example :
